@@ -249,7 +249,9 @@ class Part(object):
                     c.start.t,
                     c.staff,
                     clef_sign_to_int(c.sign),
-                    c.line,
+                    # a clef without a line (e.g. a MusicXML percussion or TAB
+                    # clef has no <line>) is reported with line 0
+                    c.line if c.line is not None else 0,
                     c.octave_change if c.octave_change is not None else 0,
                 )
                 for c in self.iter_all(Clef)
